@@ -345,6 +345,133 @@ def nodes_by_link_task():
     return Task(f"{NETQ}:Network.nodes_by_link<content>", run, props=P_V, func=f"{NETQ}:Network.nodes_by_link", config="content on a symbolic graph")
 
 
+def refinement_task(what):
+    """The ghost view's facts about origins / destinations (contracts/ghost.py: GhostNet.node_facts,
+    origin_facts / dest_facts, and what _Lookup answers for the four lookups) are *derived* here from
+    what the real lookup bodies return on the symbolic graph, instead of being identified by hand:
+    with   x in the network  :=  x in Network.<what>s    and    node_of(x) := Network.<what>s[x]
+    every fact the ghost view emits at a node of the graph / at an attached object (except class
+    membership, which is the closed-world assumption) is an obligation, and the ghost answers of
+    <what>s_by_node (membership, value) must equal those of the real dict."""
+    plural = what + "s"
+    has, of = (G.has_origin, G.origin_of) if what == "origin" else (G.has_dest, G.dest_of)
+    in_net, node_of = (G.origin_in_net, G.node_of_origin) if what == "origin" else (G.dest_in_net, G.node_of_dest)
+
+    def run(interp, c):
+        from pyvc.values import ObjRef
+
+        net = setup(interp)
+        try:
+            D = net.pyvc_getattr(interp, plural)
+            Dn = net.pyvc_getattr(interp, plural + "_by_node")
+        except PyRaise as e:
+            c.oblige("safe", f"Network.{plural} raises nothing ({e.exc.cls_name})", T.FALSE, assume_after=False)
+            return
+        ok = isinstance(D, SDict) and isinstance(Dn, SDict)
+        c.oblige("post", f"Network.{plural} and {plural}_by_node are dicts built from the node enumeration", T.const(ok), assume_after=False)
+        if not ok:
+            return
+        ghost = G.GhostNet(interp, valid=False)
+        x0 = T.var("x0", R)
+
+        def define(x):
+            """the two definitions, instantiated at x"""
+            c.axiom(T.eq(in_net(x), D.contains_term(x)))
+            v = D.val(D.idx(x))
+            if isinstance(v, Slot):
+                c.axiom(T.implies(D.contains_term(x), T.eq(node_of(x), v.term)))
+
+        def instances(i):
+            """facts of the guarded dicts at node index i (python's dict semantics + condition (1))"""
+            o = of(node_at(i))
+            c.axiom(D.universal(i, o))
+            c.axiom(net.no_dup(what, i, D.idx(o)))
+            c.axiom(Dn.universal(i, node_at(i)))
+            c.axiom(net.nodes_distinct(i, Dn.idx(node_at(i))))
+            c.axiom(net.no_dup(what, i, Dn.idx(node_at(i))))
+            define(o)
+
+        def emitted(fn):
+            """the facts the ghost view emits while running fn, conjunct by conjunct"""
+            saved = c.axioms
+            c.axioms = {}
+            try:
+                fn()
+                out = list(c.axioms.values())
+            finally:
+                c.axioms = saved
+            return out
+
+        def prove(facts, under, label):
+            k = 0
+            for f in facts:
+                ops = {t.op for t in T.subterms([f])}
+                if not ({in_net(x0).op, node_of(x0).op} & ops) or ({G.n_in(x0).op, G.n_out(x0).op} & ops):
+                    continue  # degrees (networkx), class tags (closed world): not about these lookups
+                f = drop_class_facts(f)
+                k += 1
+                c.oblige("post", f"ghost view refines Network.{plural}: {label} #{k}", T.implies(under, f), assume_after=False)
+            c.oblige("post", f"ghost view refines Network.{plural}: {label}: the ghost view states something about them", T.const(k > 0), assume_after=False)
+
+        # (1) at a node of the graph
+        i = c.fresh_index(net.nN, "i")
+        n = node_at(i)
+        instances(i)
+        prove(emitted(lambda: ghost.node_facts(n)), inrange(i, net.nN), "facts at a node")
+        # (2) at an object the ghost view takes to be attached to the network
+        x = T.var("x_" + what, R)
+        define(x)
+        w = D.idx(x)
+        instances(w)
+        ghost.touched.clear()
+        facts = emitted(lambda: (ghost.origin_facts if what == "origin" else ghost.dest_facts)(x))
+        prove(facts, in_net(x), f"facts at an attached {what}")  # (what the view says about node_of(x) is used only once x is known to be attached: the lookup is obliged to find its key)
+        # (3) the ghost answers of the by-node lookup
+        look = G._Lookup(ghost, plural + "_by_node")
+        key = ghost.heap.ref(n, ("Node",))
+        present = T.lift(look.pyvc_contains(interp, key))
+        c.oblige("post", f"ghost view refines Network.{plural}_by_node: membership of a node of the graph", T.implies(inrange(i, net.nN), T.eq(present, Dn.contains_term(n))), assume_after=False)
+        v = Dn.val(Dn.idx(n))
+        c.hyps.append(T.and_(inrange(i, net.nN), present))
+        try:
+            got = look.pyvc_getitem(interp, key)
+        finally:
+            c.hyps.pop()
+        okv = isinstance(v, Slot) and isinstance(got, ObjRef)
+        c.oblige("post", f"ghost view refines Network.{plural}_by_node: value at a node of the graph",
+                 T.implies(T.and_(inrange(i, net.nN), present), T.eq(got.term, v.term)) if okv else T.FALSE, assume_after=False)
+        # (4) and of the by-object lookup
+        look = G._Lookup(ghost, plural)
+        keyx = ghost.heap.ref(x, G.ORIGIN_CLASSES if what == "origin" else G.DEST_CLASSES)
+        present = T.lift(look.pyvc_contains(interp, keyx))
+        c.oblige("post", f"ghost view refines Network.{plural}: membership", T.eq(present, D.contains_term(x)), assume_after=False)
+        v = D.val(w)
+        c.hyps.append(present)
+        try:
+            got = look.pyvc_getitem(interp, keyx)
+        finally:
+            c.hyps.pop()
+        okv = isinstance(v, Slot) and isinstance(got, ObjRef)
+        c.oblige("post", f"ghost view refines Network.{plural}: value", T.implies(present, T.eq(got.term, v.term)) if okv else T.FALSE, assume_after=False)
+
+    return Task(f"{NETQ}:Network.{plural}<ghost view refinement>", run, props=P_V, func=f"{NETQ}:Network.{plural}", config="ghost view derived from the real lookups")
+
+
+def drop_class_facts(f):
+    """remove the conjuncts that speak about the class of an object (closed-world assumption, not a lookup fact)"""
+    tag = G.cls_tag(T.var("x0", R)).op
+
+    def is_class(t):
+        return any(s.op == tag for s in T.subterms([t]))
+
+    if f.op == "implies":
+        a, b = f.args
+        return T.implies(a, drop_class_facts(b))
+    if f.op == "and":
+        return T.and_(*[drop_class_facts(x) for x in f.args if not is_class(x)])
+    return T.TRUE if is_class(f) else f
+
+
 def elements_task():
     """Network.elements enumerates the links (edge order), then the origins, then the destinations"""
 
@@ -388,5 +515,7 @@ def all_tasks():
         lookup_task("destinations", "destination", "by_object"),
         lookup_task("destinations_by_node", "destination", "by_node"),
         nodes_by_link_task(),
+        refinement_task("origin"),
+        refinement_task("destination"),
         elements_task(),
     ]
